@@ -77,7 +77,16 @@ def parse_template(path):
     raw = []
     files = {}
     allow = []
-    for lineno, line in enumerate(open(path).read().split("\n"), 1):
+    src_lines = []
+    for line in open(path).read().split("\n"):
+        m = re.match(r"//@include\s+(\S+)\s*$", line)
+        if m:
+            # shared template fragment (contract text used by more than one unit, literally the same)
+            inc = os.path.join(os.path.dirname(path), "inc", m.group(1))
+            src_lines.extend(open(inc).read().rstrip("\n").split("\n"))
+        else:
+            src_lines.append(line)
+    for lineno, line in enumerate(src_lines, 1):
         if not line.startswith("//@"):
             if cur is not None:
                 raise ExtractError(f"{path}:{lineno}: plain text inside a directive block (missing //@end?)")
@@ -190,8 +199,9 @@ def apply_fn_subs(unit, item, pc, subs_for_fn, fnargs, owner, canary):
     """Apply rules to one fn item; returns rendered text."""
     _, kv = parse_kv(fnargs)
     rsx.rule_attrs(item, pc)
-    rsx.rule_log(item, pc)
-    rsx.rule_refpat(item, pc)
+    if "xbody" not in fnargs:  # a dropped body needs no rewriting
+        rsx.rule_log(item, pc)
+        rsx.rule_refpat(item, pc)
     if "clospat" in fnargs:
         ann = {int(sa[0]): "\n".join(ls) for (sk_, sa, ls) in subs_for_fn if sk_ == "closure"}
         rsx.rule_clospat(item, pc, ann)
@@ -355,9 +365,9 @@ def build_unit(name, tpl_path, canary=False):
         if b.kind == "lift":
             # //@lift NEWALIAS conflict_block
             import lift as liftmod
-            if pos[1] != "conflict_block":
+            if pos[1] not in liftmod.VERUS_LIFTS:
                 raise ExtractError(f"{tpl_path}:{b.lineno}: unknown lift {pos[1]}")
-            text, meta = liftmod.verus_conflict_source(REPO)
+            text, meta = liftmod.VERUS_LIFTS[pos[1]](REPO)
             vrel = f"{meta['file']}#lift:{pos[1]}"
             files[pos[0]] = vrel
             unit.sources[vrel] = rsx.Source(vrel, text=text)
@@ -374,9 +384,10 @@ def build_unit(name, tpl_path, canary=False):
             sig = "\n".join("\n".join(sub[2]) for sub in b.subs)
             if not re.match(r"\s*(pub\s+)?fn\s+" + re.escape(name) + r"\b", sig):
                 raise ExtractError(f"{tpl_path}:{b.lineno}: xexprfn {name}: signature must start with `fn {name}`")
-            unit.emit("#[verifier::external_body]\n" + sig.rstrip() + "\n{\n" + unit.xexprs[name] + "\n}\n\n")
+            nobody = "nobody" in pos[1:]
+            unit.emit("#[verifier::external_body]\n" + sig.rstrip() + "\n{\n" + ("unimplemented!()" if nobody else unit.xexprs[name]) + "\n}\n\n")
             unit.items.append({"kind": "xexprfn", "name": name, "file": "-", "lines": [0, 0], "sha256_16": "-",
-                               "rules": [{"rule": "R-XEXPR", "line": 0, "note": "body is the verbatim expression text; contract ASSUMED", "dropped": unit.xexprs[name][:200]}],
+                               "rules": [{"rule": "R-XEXPR", "line": 0, "note": ("body DROPPED (the expression text is recorded under `dropped`); " if nobody else "body is the verbatim expression text; ") + "contract ASSUMED", "dropped": unit.xexprs[name][:200]}],
                                "obligation": None, "contract": sig})
             continue
         if alias not in files:
@@ -441,7 +452,7 @@ def build_unit(name, tpl_path, canary=False):
             wanted = [f[0][0] for f in fns]
             if b.kind == "trait":
                 methods = ",".join(kv.get("methods", [])).split(",") if "methods" in kv else wanted
-                methods = [m for m in methods if m]
+                methods = [m for m in methods if m and m != "-"]
                 have = [c.name for c in item.children() if c.kind == "fn"]
                 dropped = [m for m in have if m not in methods]
                 if dropped:
